@@ -94,6 +94,9 @@ def check_type(P, ctx, T):
                     else:
                         ok = ok and a == p
                 detail = ['call: %s' % g.describe(n)]
+                if ok and not g.must_pass(g.exit, [n['id']]):
+                    ok = False
+                    detail.append('a normal exit is reachable without calling %s (the operation is silently skipped on that path)' % lib)
             ctx.check(ok, 'C20.delegation', key + ':call', site(fn), '%s maps to %s on the object\'s own handle with its arguments in order' % (m, lib), detail)
             if ok and failtest:
                 n, c = cs[0]
